@@ -1143,6 +1143,11 @@ class C13:
         wo = {"regf": 0, "unregf": 0, "regk": 0, "unregk": 0, "sete": 55, "inpl": 8, "setv": 15, "unreg": 3}
         cfg = swarm_config(rc, ctx.tier, weights_over=wo, g_restricted=True)
         cfg["nplit"] = rc.random() < 0.3
+        if cfg["nplit"]:
+            # the generated source prints a numpy literal as a plain number, so the function computes with python floats
+            # where the manager computes with numpy scalars; operators on which the two differ in value (round, **, //, %,
+            # comparisons) are left out of these runs
+            cfg["ops_off"] = sorted(set(cfg["ops_off"]) | {"round", "pow", "div", "divlit", "cmp", "shift"})
         spec = gen_spec(rng_for(ctx.seed, "C13", run, "spec"), cfg)
         hg = HistoryGen(rng_for(ctx.seed, "C13", run, "ops"), cfg, spec)
         rm = rng_for(ctx.seed, "C13", run, "markers")
